@@ -796,6 +796,15 @@ def _oracle(f, args):
                 d[hashable(k)] = v
                 rep[hashable(k)] = k
         return ('{', [(rep[k], v) for k, v in d.items()]), same
+    if f == 'merge-into':
+        if not args or args[0][0] != '{' or not all(a[0] in ('{', '#{') for a in args): raise NoOpinion()
+        d, rep = {}, {}
+        for a in args:
+            for k, v in a[1]:
+                d[hashable(k)] = v
+                rep[hashable(k)] = k
+        r = ('{', [(rep[k], v) for k, v in d.items()])
+        return r, [r] + list(args[1:])
     if f == 'zipcoll':
         if len(args) != 2 or not all(a[0] in ('(', '[') for a in args): raise NoOpinion()
         d, rep = {}, {}
